@@ -177,6 +177,17 @@ func main() {
 			if got := planar.MultiPolygonContains(mp, pf); got != wantM {
 				c.Failf("multipolygon", "MultiPolygonContains(%v, %v) = %v, want %v", mp, pf, got, wantM)
 			}
+			// members in the other order, and an island that fills the first hole (a member inside another
+			// member's hole): a multi-polygon contains the point iff any member does, whatever the order
+			if got := planar.MultiPolygonContains(orb.MultiPolygon{poly, orb.Polygon{other}}, pf); got != wantM {
+				c.Failf("multipolygon", "MultiPolygonContains with the members [polygon with holes, %v] in this order, point %v = %v, want %v | polygon %v", other, pf, got, wantM, poly)
+			}
+			wantI := want || contains(hex, pe)
+			for oi2, isl := range []orb.MultiPolygon{{poly, orb.Polygon{hole}}, {orb.Polygon{hole}, poly}} {
+				if got := planar.MultiPolygonContains(isl, pf); got != wantI {
+					c.Failf("multipolygon", "MultiPolygonContains of the polygon and an island filling its first hole (order %d), point %v = %v, want %v | polygon %v", oi2, pf, got, wantI, poly)
+				}
+			}
 			// read-only and layout-independent: all rings as windows of one shared buffer
 			wmp, verify := refgeom.Windowed(mp)
 			wgot := planar.MultiPolygonContains(wmp.(orb.MultiPolygon), pf)
